@@ -17,7 +17,7 @@ cd "$wt"
 if ! git apply "$patch"; then echo "RESULT apply=FAIL"; exit 3; fi
 if ! go build ./... 2>/tmp/seed-build.$$; then echo "RESULT build=FAIL"; head -5 /tmp/seed-build.$$; rm -f /tmp/seed-build.$$; exit 3; fi
 rm -f /tmp/seed-build.$$
-if go test -vet=off -count=1 ./... >/tmp/seed-suite.$$ 2>&1; then echo "RESULT suite=PASS"; else echo "RESULT suite=FAIL"; grep -v "^ok\|no test files" /tmp/seed-suite.$$ | head -8; fi
+if [ "${SKIP_SUITE:-0}" = 1 ]; then echo "RESULT suite=SKIPPED"; elif go test -vet=off -count=1 ./... >/tmp/seed-suite.$$ 2>&1; then echo "RESULT suite=PASS"; else echo "RESULT suite=FAIL"; grep -v "^ok\|no test files" /tmp/seed-suite.$$ | head -8; fi
 rm -f /tmp/seed-suite.$$
 if [ "$demo" != "-" ]; then
   demo=$(readlink -f "$demo")
